@@ -48,7 +48,7 @@ class HEX(BinFormat):
             if l.HEXcode == StartSegmentAddress:
                 self._entrypoint = (l.cs, l.ip)
             elif l.HEXcode == StartLinearAddress:
-                self.entrypoint = l.eip
+                self._entrypoint = l.eip
             self.L.append(l)
         self.__lines = None
         self.__dataio = None
@@ -69,21 +69,17 @@ class HEX(BinFormat):
                 mmap.write(k, v)
 
     def decode(self):
-        seg = 0
-        ela = 0
+        # the most recent extended (segment or linear) address record
+        # defines the base of the following data records:
+        base = 0
         lines = []
         for l in self.L:
             if l.HEXcode == ExtendedSegmentAddress:
-                seg = l.base
+                base = l.base * 16
             elif l.HEXcode == ExtendedLinearAddress:
-                ela = l.ela
+                base = l.ela << 16
             elif l.HEXcode == Data:
-                if ela:
-                    address = (ela << 16) + l.address
-                elif seg:
-                    address = (seg * 16) + l.address
-                else:
-                    address = l.address
+                address = base + l.address
                 lines.append((address, l.data))
         m = MemoryMap()
         self.__lines = lines
